@@ -100,6 +100,14 @@ func vfApplyAttack(a vfAttack, line []byte) ([]byte, bool) {
 			return []byte("#HUH:" + payload + nl), true
 		case "no-colon":
 			return []byte("#" + nl), true
+		case "colon-first": // the colon is the very first byte of the line
+			return []byte(":" + payload + nl), true
+		case "colon-only":
+			return []byte(":" + nl), true
+		case "hash-colon": // an empty type
+			return []byte("#:" + payload + nl), true
+		case "no-hash":
+			return []byte(strings.TrimPrefix(head, "#") + payload + nl), true
 		case "long-line":
 			return []byte(head + strings.Repeat("A", 3<<20) + nl), true
 		case "json-array":
@@ -139,7 +147,7 @@ func vfAttackList() []vfAttack {
 			out = append(out, vfAttack{from, typ, occ, field, v})
 		}
 	}
-	raws := []string{"trunc-b64", "bad-b64", "bad-zlib", "trunc-zlib", "trunc-json", "empty", "wrong-type", "no-colon", "long-line", "json-array", "json-null", "json-deep"}
+	raws := []string{"trunc-b64", "bad-b64", "bad-zlib", "trunc-zlib", "trunc-json", "empty", "wrong-type", "no-colon", "colon-first", "colon-only", "hash-colon", "no-hash", "long-line", "json-array", "json-null", "json-deep"}
 	for _, from := range []string{"client", "server"} {
 		// the sender of each message type depends on the direction; both are listed, unreachable ones are skipped at run time
 		add(from, "ACT", 0, "protocol", vfBoundary...)
@@ -157,7 +165,7 @@ func vfAttackList() []vfAttack {
 		add(from, "CFG", 0, "newline", "", "abc", "JSON:5")
 		add(from, "CFG", 0, "raw", raws...)
 		add(from, "NUM", 0, "int", vfBoundary...)
-		add(from, "NUM", 0, "raw", "wrong-type", "no-colon", "empty")
+		add(from, "NUM", 0, "raw", "wrong-type", "no-colon", "empty", "colon-first", "hash-colon")
 		for occ := 0; occ < 2; occ++ {
 			add(from, "NAME", occ, "size", vfBoundary...)
 			add(from, "NAME", occ, "perm", "-1", "4294967295", "4294967296", "abc", "JSON:null")
@@ -167,7 +175,7 @@ func vfAttackList() []vfAttack {
 			add(from, "NAME", occ, "archive", "JSON:true", "JSON:\"x\"")
 			add(from, "NAME", occ, "raw", raws...)
 			add(from, "SIZE", occ, "int", vfBoundary...)
-			add(from, "MD5", occ, "raw", "trunc-b64", "bad-b64", "bad-zlib", "empty", "wrong-type", "long-line")
+			add(from, "MD5", occ, "raw", "trunc-b64", "bad-b64", "bad-zlib", "empty", "wrong-type", "long-line", "colon-first", "no-colon")
 			add(from, "COMP", occ, "int", "", "maybe", "TRUE", "1")
 			add(from, "HASH", occ, "step", vfBoundary...)
 			add(from, "HASH", occ, "hash", "", "abc", "JSON:5", "BIG")
@@ -176,14 +184,14 @@ func vfAttackList() []vfAttack {
 		}
 		for occ := 0; occ < 3; occ++ {
 			add(from, "DATA", occ, "int", vfBoundary...) // binary framing: the block length
-			add(from, "DATA", occ, "raw", "bad-b64", "trunc-b64", "empty", "wrong-type", "long-line", "bad-zlib")
+			add(from, "DATA", occ, "raw", "bad-b64", "trunc-b64", "empty", "wrong-type", "long-line", "bad-zlib", "no-colon", "colon-first", "colon-only", "hash-colon", "no-hash")
 		}
 		for occ := 0; occ < 9; occ++ {
 			add(from, "SUCC", occ, "int", vfBoundary...)
 			add(from, "SUCC", occ, "ack-len", vfBoundary...)
 			add(from, "SUCC", occ, "ack-step", vfBoundary...)
 			add(from, "SUCC", occ, "ack-extra", "1")
-			add(from, "SUCC", occ, "raw", "bad-b64", "trunc-b64", "trunc-json", "empty", "wrong-type", "json-array", "json-null", "long-line")
+			add(from, "SUCC", occ, "raw", "bad-b64", "trunc-b64", "trunc-json", "empty", "wrong-type", "json-array", "json-null", "long-line", "no-colon", "colon-first", "colon-only", "hash-colon", "no-hash")
 			add(from, "SUCC", occ, "size", "-1", "9223372036854775807", "abc") // target-file reply of protocol 3/4
 			add(from, "SUCC", occ, "name", "JSON:5", "JSON:null", "BIG")
 			add(from, "SUCC", occ, "step", vfBoundary...) // hash ack
